@@ -753,8 +753,13 @@ func (cmd *Command) printDiagnostics(cs []*lint.Analyzer, diagnostics []diagnost
 		if diag.Category == "compile" && cmd.flags.debugNoCompileErrors {
 			continue
 		}
-		if diag.Severity == severityIgnored && !cmd.flags.showIgnored {
+		if diag.Severity == severityIgnored {
+			// Ignored diagnostics never count as errors or warnings,
+			// whether or not -show-ignored makes us print them.
 			numIgnored++
+			if cmd.flags.showIgnored {
+				notIgnored = append(notIgnored, diag)
+			}
 			continue
 		}
 		if shouldExit[makeCaseFoldedString(diag.Category)] {
